@@ -24,18 +24,21 @@ func main() {
 	n := fs.Int("n", 10, "number of histories")
 	depth := fs.Int("depth", 40, "blocks per history")
 	mode := fs.String("mode", "", "driver mode")
+	pr := fs.Int64("pr", 1, "locking power reduction")
+	maxVals := fs.Int64("max-vals", 2, "locking MaxValidators")
 	period := fs.Int64("period", 3, "relayer electing period (ticks)")
 	acceptTimeout := fs.Int64("accept-timeout", 2, "relayer accept-proposer timeout (ticks)")
 	fs.Parse(args)
 	_ = n
 	_ = depth
-	_ = mode
 
 	var err error
 	var count int
 	switch cmd {
 	case "merkle":
 		count, err = drive.MerkleReplay(*cases, *out, *seed, *inst)
+	case "locking":
+		count, err = drive.LockingRandom(*out, *seed, *n, *depth, drive.LockingOpts{PowerReduction: *pr, MaxVals: *maxVals, NVals: 5, Mode: *mode})
 	case "relayer":
 		count, err = drive.RelayerRandom(*out, *seed, *n, *depth, *period, *acceptTimeout)
 	case "voted":
